@@ -26,7 +26,7 @@ from pvm.gen import grids as gg
 from pvm.gen import mdg as gm
 
 PROP = "C22"
-N = {"quick": 120, "thorough": 8000}
+N = {"quick": 120, "thorough": 4000}
 WORKERS = {"quick": 4, "thorough": 16}
 RULE = ("grids: seeded recipes of pvm.gen.grids (all kinds, dims 1-3, embedded 1-D/2-D) and "
         "the highest-dimensional split grid of fractured md-grids (pvm.gen.mdg); per grid: "
